@@ -167,6 +167,10 @@ func sdInfo(name, machine, process, eps string, id uint32) dir.ServiceInfo {
 // services the hosting server registered itself carry its machine, process and address: "host"
 func sdShow(s dir.ServiceInfo) string {
 	if s.MachineId != "" && s.MachineId != "m" && s.MachineId != "m2" {
+		if sdw != nil && (len(s.Endpoints) != 1 || s.Endpoints[0] != sdw.addr) {
+			// a service of the hosting server that no longer carries the server's address
+			return fmt.Sprintf("%d:%s:host-with-other-endpoints:%s", s.ServiceId, s.Name, strings.Join(s.Endpoints, ","))
+		}
 		return fmt.Sprintf("%d:%s:host", s.ServiceId, s.Name)
 	}
 	m := s.MachineId
@@ -792,6 +796,14 @@ func runC15(r *Rand, tier string, o *Out) {
 		o.Do("P", "sd.services", true)
 		o.Do("P", "sd.events", true)
 	}
+	// services of the hosting server itself (they are registered with the server's own list of addresses): an update of
+	// one of them, then what the directory says of the others and of itself, then another local registration
+	for _, l := range []string{"sd.reset", "sd.lnew l1", "sd.lnew l2", "sd.update 2 l1 m2 2 3", "sd.service l1", "sd.service l2",
+		"sd.service ServiceDirectory", "sd.services", "sd.lnew a", "sd.service a", "sd.update 1 ServiceDirectory m2 4 5", "sd.service l2",
+		"sd.services", "sd.events"} {
+		o.Do("P", l, true)
+	}
+	o.Count("scenario:update-of-a-local-service")
 	if tier == "thorough" {
 		// every sequence of four operations over two names and the ids they can produce
 		alphabet := []string{"sd.reg a m 1 1", "sd.reg b m 1 1", "sd.ready 2", "sd.ready 3", "sd.unreg 2", "sd.unreg 3",
